@@ -6,8 +6,8 @@ import glob, json, os, re, sys
 suffix = sys.argv[1]
 props = {json.loads(l)['id']: json.loads(l) for l in open('/verif/properties.jsonl')}
 ids = sys.argv[2:] or sorted(props)
-tmpl = open('/tmp/seed/prompts/C01b.txt').read()
-head, rest = tmpl.split('PROPERTY C01', 1)
+tmpl = open('/verif/tools/seed_prompt_template.txt').read()
+head, rest = tmpl.split('PROPERTY C01 ', 1)
 task = rest[rest.index('TASK.'):rest.index('ALREADY PROPOSED')]
 tail = rest[rest.index('DELIVERABLES'):]
 os.makedirs('/tmp/seed/prompts', exist_ok=True)
